@@ -1,6 +1,6 @@
 (** hdf_utils.reshape_from_n_dims as written. *)
 From Coq Require Import List Arith Lia Bool.
-Require Import V.Base.ListAux V.Base.Radix V.Base.Matrix V.Base.NdArray V.Usid.SortOrder V.Usid.AncBuild V.Usid.ToND.
+Require Import V.Base.ListAux V.Base.CorrAux V.Base.Radix V.Base.Matrix V.Base.NdArray V.Usid.SortOrder V.Usid.AncBuild V.Usid.ToND.
 Import ListNotations.
 
 Definition msize {A} (m : list (list A)) : nat := length m * ncols m.
@@ -19,31 +19,37 @@ Definition from_nd {A} (d : A) (a : nd A) (pos : option (list (list nat))) (spec
       let built :=
         match pos, spec with
         | Some p, None =>
-            let pos_dims := get_dimensionality p (get_sort_order p) in
-            if negb (forallb (fun x => existsb (Nat.eqb x) shape) pos_dims) then Err ValueE
+            let pos_dims := get_dimensionality p (seq 0 (length (orient p))) in
+            if negb (list_eqb Nat.eqb (firstn (length pos_dims) shape) pos_dims) then Err ValueE
             else match make_indices_matrix (skipn (length pos_dims) shape) false with
                  | Some s => Ok (p, s)
                  | None => Err ValueE
                  end
         | None, Some s =>
-            let spec_dims := get_dimensionality s (get_sort_order s) in
-            if negb (forallb (fun x => existsb (Nat.eqb x) shape) spec_dims) then Err ValueE
+            let spec_dims := get_dimensionality s (seq 0 (length (orient s))) in
+            if negb (list_eqb Nat.eqb (skipn (ndim - length spec_dims) shape) spec_dims) then Err ValueE
             else match make_indices_matrix (firstn (ndim - length spec_dims) shape) true with
                  | Some p => Ok (p, s)
                  | None => Err ValueE
                  end
         | Some p, Some s =>
             if negb (Nat.eqb (length p * ncols s) (prod shape)) then Err ValueE
-            else if negb (Nat.eqb (ncols p + length s) ndim) && negb (Nat.eqb (msize p) 1 || Nat.eqb (msize s) 1)
-                 then Err ValueE
-            else Ok (p, s)
+            else if negb (Nat.eqb (ncols p + length s) ndim) then
+                   (if negb (Nat.eqb (msize p) 1 || Nat.eqb (msize s) 1) then Err ValueE else Ok (p, s))
+            else
+              (* every axis must have the size of the dimension it stands for *)
+              let pt := transpose2d 0 p in
+              let exp_shape := get_dimensionality pt (seq 0 (length (orient pt))) ++ get_dimensionality s (seq 0 (length (orient s))) in
+              if negb (list_eqb Nat.eqb shape exp_shape) then Err ValueE else Ok (p, s)
         | None, None => Err ValueE
         end in
       match built with
       | Err e => Err e
       | Ok (p, s) =>
-        let pos_sort := if Nat.eqb (msize p) 1 then [] else get_sort_order (transpose2d 0 p) in
-        let spec_sort := if Nat.eqb (msize s) 1 then [] else get_sort_order s in
+        (* a dummy axis can only have been squeezed out if an axis is missing *)
+        let squeezed := negb (Nat.eqb (ncols p + length s) ndim) in
+        let pos_sort := if Nat.eqb (msize p) 1 && squeezed then [] else get_sort_order (transpose2d 0 p) in
+        let spec_sort := if Nat.eqb (msize s) 1 && squeezed then [] else get_sort_order s in
         let spec_sort := match spec with None => rev spec_sort | _ => spec_sort end in
         let pos_sort := match pos with None => rev pos_sort | _ => pos_sort end in
         let swap := rev pos_sort ++ map (fun e => e + length pos_sort) (rev spec_sort) in
